@@ -1,0 +1,43 @@
+//! Verification hooks, only compiled with the `verif` feature.
+//!
+//! A process-global callback receives named points together with a few scalars. The points sit
+//! at the linearization points of the storage engine and the server so that an external harness
+//! can record them or block a thread there to force a schedule. Without an installed callback
+//! every point is a no-op.
+
+use std::sync::{Arc, RwLock};
+
+/// Signature of the callback: point name and named scalars.
+pub type Callback = dyn Fn(&'static str, &[(&'static str, u64)]) + Send + Sync;
+
+static CALLBACK: RwLock<Option<Arc<Callback>>> = RwLock::new(None);
+
+/// Install (or remove) the process-global callback.
+pub fn set_callback(cb: Option<Arc<Callback>>) {
+    *CALLBACK.write().unwrap_or_else(|e| e.into_inner()) = cb;
+}
+
+/// Report that the calling thread reached the named point.
+pub fn point(name: &'static str, fields: &[(&'static str, u64)]) {
+    let cb = CALLBACK
+        .read()
+        .unwrap_or_else(|e| e.into_inner())
+        .as_ref()
+        .cloned();
+    if let Some(cb) = cb {
+        cb(name, fields);
+    }
+}
+
+/// A copy of the private in-memory state of a Bitcask instance.
+#[derive(Debug, Clone, Default)]
+pub struct Dump {
+    /// KeyDir entries as `(key, fileid, pos, len)`.
+    pub keydir: Vec<(bytes::Bytes, u64, u64, u64)>,
+    /// Statistics as `(fileid, live_keys, dead_keys, dead_bytes)`.
+    pub stats: Vec<(u64, u64, u64, u64)>,
+    /// ID of the active data file.
+    pub active_fileid: u64,
+    /// Bytes written to the active data file.
+    pub written_bytes: u64,
+}
